@@ -41,15 +41,14 @@ theorem strip_packet_iff {f p : Bytes} :
     program of the last call (nothing, if that was `FilterTypeNone` or there was no call) -/
 theorem attached_is_last {Prog : Type} (accepts : Prog → Bytes → Bool) :
     ∀ (evs : List (Ev Prog)) (s : Source Prog),
-      (evs.foldl (Source.step accepts) s).attached =
-        (evs.foldl (fun a e => match e with | .set p => p | .frame _ => a) s.attached) := by
+      (evs.foldl (Source.step accepts) s).attached = lastSet s.attached evs := by
   intro evs
   induction evs with
   | nil => intro s; rfl
   | cons e rest ih =>
     intro s
-    simp only [List.foldl_cons]
-    rw [ih]
+    simp only [List.foldl_cons, lastSet]
+    rw [ih, lastSet]
     cases e with
     | set p => cases p <;> simp [Source.step, Source.setFilter]
     | frame f => simp [Source.step, Source.arrive]
@@ -84,5 +83,55 @@ theorem queue_accepted {Prog : Type} (accepts : Prog → Bytes → Bool) :
         · simpa [Source.passes, hq] using hp
       · simp only [hp] at hf
         exact h q hq f hf
+
+/-- a read never returns zero bytes: the "Read() returned 0 bytes" failure of `ReadAndParse` cannot be
+    provoked by any sequence of frames -/
+theorem readNext_nonempty : ∀ (q : List Bytes) (p : Bytes) (rest : List Bytes),
+    readNext q = some (p, rest) → p ≠ [] := by
+  intro q
+  induction q with
+  | nil => intro p rest h; simp [readNext] at h
+  | cons f q ih =>
+    intro p rest h
+    simp only [readNext] at h
+    split at h
+    · rename_i p' hp
+      simp only [Option.some.injEq, Prod.mk.injEq] at h
+      obtain ⟨rfl, _⟩ := h
+      unfold handUp at hp
+      split at hp
+      · split at hp
+        · simp at hp
+        · rename_i hne
+          simp only [Option.some.injEq] at hp
+          subst hp
+          intro h0
+          exact hne (by simp [h0])
+      · simp at hp
+    · exact ih p rest h
+
+/-- what a read returns is the packet behind the Ethernet header of one of the queued IP frames -/
+theorem readNext_from_queue : ∀ (q : List Bytes) (p : Bytes) (rest : List Bytes),
+    readNext q = some (p, rest) → ∃ f ∈ q, strip f = .packet p := by
+  intro q
+  induction q with
+  | nil => intro p rest h; simp [readNext] at h
+  | cons f q ih =>
+    intro p rest h
+    simp only [readNext] at h
+    split at h
+    · rename_i p' hp
+      simp only [Option.some.injEq, Prod.mk.injEq] at h
+      obtain ⟨rfl, _⟩ := h
+      refine ⟨f, List.mem_cons_self, ?_⟩
+      unfold handUp at hp
+      split at hp
+      · rename_i pp hs
+        split at hp
+        · simp at hp
+        · simp only [Option.some.injEq] at hp; subst hp; exact hs
+      · simp at hp
+    · obtain ⟨g, hg, hs⟩ := ih p rest h
+      exact ⟨g, List.mem_cons_of_mem _ hg, hs⟩
 
 end TRV.Proofs.Link
